@@ -15,7 +15,7 @@ if TYPE_CHECKING:
 
 __all__ = ["located_error"]
 
-suppress_attribute_error = suppress(AttributeError)
+suppress_exceptions = suppress(Exception)
 
 
 def located_error(
@@ -36,9 +36,10 @@ def located_error(
     # other contexts.
     if isinstance(original_error, GraphQLError) and original_error.path is not None:
         return original_error
+    # an attribute of an arbitrary exception may be a property that raises anything
     try:
         message = str(original_error.message)  # type: ignore
-    except AttributeError:
+    except Exception:  # noqa: BLE001
         try:
             message = str(original_error)
         except Exception:  # noqa: BLE001 (broken __str__ must not escape execution)
@@ -47,11 +48,11 @@ def located_error(
         source = original_error.source  # type: ignore
         if not is_source(source):
             source = Source(source) if isinstance(source, str) else None
-    except AttributeError:
+    except Exception:  # noqa: BLE001
         source = None
     try:
         positions = original_error.positions  # type: ignore
-    except AttributeError:
+    except Exception:  # noqa: BLE001
         positions = None
     else:
         # an arbitrary exception may carry an unrelated attribute of that name
@@ -61,7 +62,7 @@ def located_error(
         ):
             positions = None
 
-    with suppress_attribute_error:
+    with suppress_exceptions:
         error_nodes = original_error.nodes  # type: ignore
         # an arbitrary exception may carry an unrelated attribute of that name
         if isinstance(error_nodes, Node) or (
